@@ -252,6 +252,12 @@ pub fn c10(ctx: &Ctx) -> (CheckMeta, Outcome) {
         }
     }
     let mut out = run_all(tasks, threads());
+    if crate::pool::is_primary() {
+        // the statistics wrapper is generic in the number of tracked codes per family: it must stay a
+        // transparent dispatcher in other instantiations too (zero-sized families included)
+        crate::props::stats::param_sweeps("C10", &mut out);
+        out.violations.retain(|v| v.system != "stats-params" || v.op_class.starts_with("wrapper") || v.symptom == "panic");
+    }
     // identifier space: every constant 0..=50 is named by at least one code, and the named map is onto
     if crate::pool::is_primary() {
         let named: std::collections::BTreeSet<usize> = all_named_consts().iter().map(|x| x.1).collect();
@@ -273,7 +279,7 @@ pub fn c10(ctx: &Ctx) -> (CheckMeta, Outcome) {
     let meta = CheckMeta {
         property: "C10".into(),
         level: "exploration".into(),
-        rule: "complete over identifiers: every code named by the 51 code_consts (all aliases) and every Codes variant with parameters 0..=12 plus {17,31,32,63} / large Golomb moduli, x every dispatcher kind (Codes dynamic+static, FuncCodeWriter/Reader, FactoryFuncCodeReader::new().get(), ConstCode<ID> with ID taken from the constant's NAME, CodesStatsWrapper around Codes / Func* / ConstCode, Codes::len, FuncCodeLen, ConstCode::len) x {write, read, len} x both endiannesses x values (dense below 4096 (thorough 65536), every 2^i+-2, step points, maxima); oracle: bytes and returned length written via the dispatcher = those of the direct trait method (PRE bits, codeword, POST bits); value and end position read via the dispatcher = direct method; len = direct len; a dispatcher whose constructor refuses the code is skipped (Err, never another code); evaluations = (code, value, E) items, transitions = dispatcher calls compared; non-trivial = value > 0 of a code that has an identifier constant".into(),
+        rule: "the statistics wrapper in eight instantiations of its const parameters (unequal and zero-sized families included) returns the direct method's lengths and values on writes and reads; complete over identifiers: every code named by the 51 code_consts (all aliases) and every Codes variant with parameters 0..=12 plus {17,31,32,63} / large Golomb moduli, x every dispatcher kind (Codes dynamic+static, FuncCodeWriter/Reader, FactoryFuncCodeReader::new().get(), ConstCode<ID> with ID taken from the constant's NAME, CodesStatsWrapper around Codes / Func* / ConstCode, Codes::len, FuncCodeLen, ConstCode::len) x {write, read, len} x both endiannesses x values (dense below 4096 (thorough 65536), every 2^i+-2, step points, maxima); oracle: bytes and returned length written via the dispatcher = those of the direct trait method (PRE bits, codeword, POST bits); value and end position read via the dispatcher = direct method; len = direct len; a dispatcher whose constructor refuses the code is skipped (Err, never another code); evaluations = (code, value, E) items, transitions = dispatcher calls compared; non-trivial = value > 0 of a code that has an identifier constant".into(),
         assumptions: vec!["the direct trait methods are the specification here (their own correctness is C03/C04/C06)".into()],
     };
     (meta, out)
